@@ -28,3 +28,18 @@ pub fn duration_from_bits_time32(b: [u8; 4]) -> NtpDuration {
 pub fn duration_to_bits_time32(d: NtpDuration) -> [u8; 4] {
     d.to_bits_time32()
 }
+
+// --- non-finite seconds converted to a duration (release builds turn NaN into 0 and +-inf into the extremes
+// without a trace; the harness reads this counter to see them)
+thread_local! {
+    static NONFINITE_SECONDS: std::cell::Cell<u64> = const { std::cell::Cell::new(0) };
+}
+pub fn note_from_seconds(seconds: f64) {
+    if !seconds.is_finite() {
+        NONFINITE_SECONDS.with(|c| c.set(c.get() + 1));
+    }
+}
+/// number of non-finite values passed to `NtpDuration::from_seconds` on this thread since the last call
+pub fn take_nonfinite_seconds() -> u64 {
+    NONFINITE_SECONDS.with(|c| c.replace(0))
+}
